@@ -479,3 +479,156 @@ pub fn c17(n_programs: u64, seed: u64, only: &[String]) {
         }
     }
 }
+
+// ------------------------------------------------------------------------------------------------
+// symbolic operand forms: the same macros run at the recording scalar `X` on SYMBOLIC operands.  Every form of an operator
+// must build the same expression DAG (the arena is hash-consed, so equal expressions are equal node ids; `+` and `*` are
+// compared up to the order of their operands, which IEEE arithmetic cannot distinguish either).  That is a statement for
+// all operand values at once, and -- the code being generic in the scalar -- for every scalar type.
+use crate::big::Rat;
+use crate::scalar::{self, Node, ARENA, X};
+
+/// canonical hash of the expression a node stands for (children of + and * sorted)
+fn canon(n: u32, memo: &mut std::collections::HashMap<u32, u64>) -> u64 {
+    if let Some(h) = memo.get(&n) {
+        return *h;
+    }
+    let node = ARENA.with(|a| a.borrow().sym[n as usize].clone());
+    let mix = |t: u64, xs: &[u64]| -> u64 {
+        let mut z = t.wrapping_mul(0x9E3779B97F4A7C15) ^ 0xD1B54A32D192ED03;
+        for x in xs {
+            z = (z ^ x).wrapping_mul(0xBF58476D1CE4E5B9);
+            z ^= z >> 29;
+        }
+        z
+    };
+    let h = match node {
+        Node::Var(i) => mix(1, &[i as u64]),
+        Node::Const(r) => {
+            let t = r.show();
+            let mut z = 2u64;
+            for b in t.bytes() {
+                z = z.wrapping_mul(1099511628211) ^ b as u64;
+            }
+            mix(2, &[z])
+        }
+        Node::Add(a, b) => { let (x, y) = (canon(a, memo), canon(b, memo)); mix(3, &[x.min(y), x.max(y)]) }
+        Node::Mul(a, b) => { let (x, y) = (canon(a, memo), canon(b, memo)); mix(4, &[x.min(y), x.max(y)]) }
+        Node::Sub(a, b) => mix(5, &[canon(a, memo), canon(b, memo)]),
+        Node::Div(a, b) => mix(6, &[canon(a, memo), canon(b, memo)]),
+        Node::Rem(a, b) => mix(7, &[canon(a, memo), canon(b, memo)]),
+        Node::Neg(a) => mix(8, &[canon(a, memo)]),
+        Node::Fn1(f, a) => mix(9 + f.len() as u64 * 131 + f.as_bytes()[0] as u64, &[canon(a, memo)]),
+        Node::Fn2(f, a, b) => mix(1009 + f.len() as u64 * 131 + f.as_bytes()[0] as u64, &[canon(a, memo), canon(b, memo)]),
+    };
+    memo.insert(n, h);
+    h
+}
+impl Bits for X {
+    fn bits(&self) -> Vec<u64> {
+        let mut memo = std::collections::HashMap::new();
+        vec![canon(self.node(), &mut memo)]
+    }
+}
+thread_local! { static NEXT_VAR: std::cell::Cell<u32> = std::cell::Cell::new(0); }
+/// a fresh symbolic variable whose shadow value is the small integer `i`
+fn sym(i: i32) -> X {
+    let k = NEXT_VAR.with(|c| { let k = c.get(); c.set(k + 1); k });
+    X::input(Rat::from_i64(i as i64), k)
+}
+
+pub fn c17_symbolic() {
+    scalar::reset();
+    scalar::reset_trace(true);
+    let none: Vec<String> = vec![];
+    let mut ctx = Ctx { forms: FTally::new("c17.sym.operand_forms_same_expression", &none), left: FTally::new("c17.sym.unused_left", &none),
+                        folds: FTally::new("c17.sym.sum_product_same_expression_as_left_fold", &none), progs: FTally::new("c17.sym.unused_progs", &none),
+                        sites: Default::default() };
+    // vectors and points: + - (vector), * / % (scalar), Sum -- all dimensions
+    vector_forms!(&mut ctx, X, sym, "X");
+    // matrices, quaternions, angles, bases, Decomposed
+    for salt in 0..3 {
+        let a: Vec<X> = (0..16).map(|i| sym(1 + ((i * 3 + salt * 2) % 7))).collect();
+        let b: Vec<X> = (0..16).map(|i| sym(2 + ((i * 5 + salt) % 9))).collect();
+        let s = sym(3 + salt);
+        macro_rules! mat {
+            ($M:ident, $mk:expr, $mkv:expr, $name:expr) => {{
+                let (ma, mb, v) = ($mk(&a), $mk(&b), $mkv(&b));
+                same(&mut ctx, &format!("-{}<X>", $name), &(-ma), &[("-&a", -&ma)]);
+                bin4!(&mut ctx, &format!("{}<X> + {}", $name, $name), ma, mb, +, +=);
+                bin4!(&mut ctx, &format!("{}<X> - {}", $name, $name), ma, mb, -, -=);
+                bin4!(&mut ctx, &format!("{}<X> * {}", $name, $name), ma, mb, *);
+                bin4!(&mut ctx, &format!("{}<X> * Vector", $name), ma, v, *);
+                bin2!(&mut ctx, &format!("{}<X> * S", $name), ma, s, *, *=);
+                bin2!(&mut ctx, &format!("{}<X> / S", $name), ma, s, /, /=);
+                bin2!(&mut ctx, &format!("{}<X> % S", $name), ma, s, %, %=);
+                let list = vec![ma, mb, mb];
+                let fs = list.iter().fold($M::<X>::zero(), |acc, x| acc + *x);
+                let fp = list.iter().fold($M::<X>::identity(), |acc, x| acc * *x);
+                let (s1, s2): ($M<X>, $M<X>) = (list.iter().sum(), list.clone().into_iter().sum());
+                let (p1, p2): ($M<X>, $M<X>) = (list.iter().product(), list.clone().into_iter().product());
+                ctx.folds.rec(s1.bits() == fs.bits() && s2.bits() == fs.bits() && p1.bits() == fp.bits() && p2.bits() == fp.bits(),
+                    || format!("{}<X> Sum/Product over symbolic operands", $name));
+            }};
+        }
+        mat!(Matrix2, |c: &Vec<X>| Matrix2::new(c[0], c[1], c[2], c[3]), |c: &Vec<X>| Vector2::new(c[4], c[5]), "Matrix2");
+        mat!(Matrix3, |c: &Vec<X>| Matrix3::new(c[0], c[1], c[2], c[3], c[4], c[5], c[6], c[7], c[8]), |c: &Vec<X>| Vector3::new(c[9], c[10], c[11]), "Matrix3");
+        mat!(Matrix4, |c: &Vec<X>| Matrix4::new(c[0], c[1], c[2], c[3], c[4], c[5], c[6], c[7], c[8], c[9], c[10], c[11], c[12], c[13], c[14], c[15]),
+            |c: &Vec<X>| Vector4::new(c[3], c[2], c[1], c[0]), "Matrix4");
+        let (qa, qb) = (Quaternion::new(a[0], a[1], a[2], a[3]), Quaternion::new(b[0], b[1], b[2], b[3]));
+        let v3 = Vector3::new(b[4], b[5], b[6]);
+        same(&mut ctx, "-Quaternion<X>", &(-qa), &[("-&a", -&qa)]);
+        bin4!(&mut ctx, "Quaternion<X> + Quaternion", qa, qb, +, +=);
+        bin4!(&mut ctx, "Quaternion<X> - Quaternion", qa, qb, -, -=);
+        bin4!(&mut ctx, "Quaternion<X> * Quaternion", qa, qb, *);
+        bin4!(&mut ctx, "Quaternion<X> * Vector3", qa, v3, *);
+        bin2!(&mut ctx, "Quaternion<X> * S", qa, s, *, *=);
+        bin2!(&mut ctx, "Quaternion<X> / S", qa, s, /, /=);
+        bin2!(&mut ctx, "Quaternion<X> % S", qa, s, %, %=);
+        let ql = vec![qa, qb, qb];
+        let (fs, fp) = (ql.iter().fold(Quaternion::<X>::zero(), |acc, x| acc + *x), ql.iter().fold(Quaternion::<X>::one(), |acc, x| acc * *x));
+        let (s1, s2): (Quaternion<X>, Quaternion<X>) = (ql.iter().sum(), ql.clone().into_iter().sum());
+        let (p1, p2): (Quaternion<X>, Quaternion<X>) = (ql.iter().product(), ql.clone().into_iter().product());
+        ctx.folds.rec(s1.bits() == fs.bits() && s2.bits() == fs.bits() && p1.bits() == fp.bits() && p2.bits() == fp.bits(),
+            || "Quaternion<X> Sum/Product over symbolic operands".to_string());
+        macro_rules! ang {
+            ($A:ident) => {{
+                let (x, y) = ($A(a[0]), $A(b[1]));
+                let an = stringify!($A);
+                same(&mut ctx, &format!("-{}<X>", an), &(-x), &[("-&a", -&x)]);
+                bin4!(&mut ctx, &format!("{}<X> + {}", an, an), x, y, +, +=);
+                bin4!(&mut ctx, &format!("{}<X> - {}", an, an), x, y, -, -=);
+                bin4!(&mut ctx, &format!("{}<X> / {}", an, an), x, y, /);
+                bin4!(&mut ctx, &format!("{}<X> % {}", an, an), x, y, %, %=);
+                bin2!(&mut ctx, &format!("{}<X> * S", an), x, s, *, *=);
+                bin2!(&mut ctx, &format!("{}<X> / S", an), x, s, /, /=);
+                let l = vec![x, y, x];
+                let fs = l.iter().fold($A::<X>::zero(), |acc, z| acc + *z);
+                let (s1, s2): ($A<X>, $A<X>) = (l.iter().sum(), l.clone().into_iter().sum());
+                ctx.folds.rec(s1.bits() == fs.bits() && s2.bits() == fs.bits(), || format!("{}<X> Sum over symbolic operands", an));
+            }};
+        }
+        ang!(Rad);
+        ang!(Deg);
+        let (b2a, b2b): (Basis2<X>, Basis2<X>) = (Rotation2::from_angle(Rad(a[0])), Rotation2::from_angle(Rad(b[1])));
+        bin4!(&mut ctx, "Basis2<X> * Basis2", b2a, b2b, *);
+        let (b3a, b3b): (Basis3<X>, Basis3<X>) = (Basis3::from_quaternion(&qa), Basis3::from_quaternion(&qb));
+        bin4!(&mut ctx, "Basis3<X> * Basis3", b3a, b3b, *);
+        let l3 = vec![b3a, b3b, b3b];
+        let f3 = l3.iter().fold(Basis3::<X>::one(), |acc, x| acc * *x);
+        let (q1, q2): (Basis3<X>, Basis3<X>) = (l3.iter().product(), l3.clone().into_iter().product());
+        ctx.folds.rec(q1.bits() == f3.bits() && q2.bits() == f3.bits(), || "Basis3<X> Product over symbolic operands".to_string());
+        let (da, db) = (Decomposed { scale: s, rot: qa, disp: v3 }, Decomposed { scale: a[7], rot: qb, disp: Vector3::new(a[8], a[9], a[10]) });
+        let prod = da * db;
+        let cc = da.concat(&db);
+        let mut cs = da;
+        cs.concat_self(&db);
+        ctx.forms.rec(prod.scale.bits() == cc.scale.bits() && prod.rot.bits() == cc.rot.bits() && prod.disp.bits() == cc.disp.bits()
+            && cs.scale.bits() == cc.scale.bits() && cs.rot.bits() == cc.rot.bits() && cs.disp.bits() == cc.disp.bits(),
+            || "Decomposed<X>: `*`, concat and concat_self over symbolic operands".to_string());
+    }
+    ctx.forms.print();
+    ctx.folds.print();
+    println!("info c17.sym.operator_sites={} (every form compared as an expression DAG over symbolic operands: holds for all operand values and, the code being generic in the scalar, for every scalar type)", ctx.sites.len());
+    scalar::reset_trace(false);
+}
